@@ -29,7 +29,7 @@ import (
 	"verif/vk"
 )
 
-const c09Rule = "valid messages / streams / settings / dictionary XML mutated structure-aware (truncate at any byte, drop the CheckSum, empty a value, duplicate or swap fields, huge / negative / non-numeric / boundary-adjacent BodyLength and XMLDataLen, timestamps of every precision lengthened, shortened or with a character replaced, group counts that lie, settings lines before any section, dangling and cyclic component references), plus arbitrary fragment soups; each target is run under recover with a read bound, validation with the five switches all on, all off and in a combination picked by the input, the session stage with drawn validation switches; non-trivial = input that gets past the first check of its target (parses / frames / reaches a section or element handler); distinct = distinct input bytes per target"
+const c09Rule = "valid messages / streams / settings / dictionary XML mutated structure-aware (truncate at any byte, drop the CheckSum, empty a value, duplicate or swap fields, huge / negative / non-numeric / boundary-adjacent BodyLength and XMLDataLen, timestamps of every precision lengthened, shortened or with a character replaced, group counts that lie, settings lines before any section, dangling and cyclic component references), plus arbitrary fragment soups; each target is run under recover with a read bound, validation with the five switches all on, all off and in a combination picked by the input, the session stage with drawn validation switches, messages cut off inside or right behind their XMLData with XMLDataLen aimed at what is left; non-trivial = input that gets past the first check of its target (parses / frames / reaches a section or element handler); distinct = distinct input bytes per target"
 
 func c09() *stats.Collector {
 	c := stats.Get("C09")
@@ -94,7 +94,7 @@ func mutateMessage(t *rapid.T, msg []byte) ([]byte, []string) {
 	var applied []string
 	n := rapid.IntRange(0, 3).Draw(t, "nmut")
 	for i := 0; i < n && len(msg) > 0; i++ {
-		kind := rapid.SampledFrom([]string{"truncate", "drop-checksum", "empty-value", "dup-field", "swap-fields", "bodylength", "xmllen", "count-lies", "drop-soh", "insert-bytes", "drop-field", "empty-tag", "only-head", "timestamp"}).Draw(t, "mutation")
+		kind := rapid.SampledFrom([]string{"truncate", "drop-checksum", "empty-value", "dup-field", "swap-fields", "bodylength", "xmllen", "count-lies", "drop-soh", "insert-bytes", "drop-field", "empty-tag", "only-head", "timestamp", "xml-cut"}).Draw(t, "mutation")
 		fields := bytes.SplitAfter(msg, []byte{1})
 		if len(fields) > 0 && len(fields[len(fields)-1]) == 0 {
 			fields = fields[:len(fields)-1]
@@ -114,6 +114,22 @@ func mutateMessage(t *rapid.T, msg []byte) ([]byte, []string) {
 		switch kind {
 		case "truncate":
 			msg = msg[:rapid.IntRange(0, len(msg)-1).Draw(t, "at")]
+			applied = append(applied, kind)
+			continue
+		case "xml-cut":
+			// the message ends inside or right behind its XMLData, and XMLDataLen says exactly (or
+			// one more or less than) what is left
+			if i, j := bytes.Index(msg, []byte("\x01212=")), bytes.Index(msg, []byte("\x01213=")); i >= 0 && j > i {
+				dataStart := j + 5
+				cut := rapid.IntRange(dataStart, len(msg)).Draw(t, "cut")
+				ln := cut - dataStart + rapid.SampledFrom([]int{0, 0, 1, -1, 2}).Draw(t, "xml-len-delta")
+				if ln < 0 {
+					ln = 0
+				}
+				cutMsg := append([]byte{}, msg[:i+5]...)
+				cutMsg = append(cutMsg, strconv.Itoa(ln)...)
+				msg = append(cutMsg, msg[j:cut]...)
+			}
 			applied = append(applied, kind)
 			continue
 		case "drop-checksum":
@@ -219,7 +235,10 @@ func exerciseMessage(t vk.TB, d map[string]*dictPair, raw []byte, dictName strin
 		m := quickfix.NewMessage()
 		var err error
 		if p := catch(func() {
-			err = quickfix.ParseMessageWithDataDictionary(m, bytes.NewBuffer(append([]byte(nil), raw...)), md.td, md.ad)
+			// (a copy with no spare capacity behind the message: a read one past the end is a fault, not a silent over-read)
+			exact := make([]byte, len(raw))
+			copy(exact, raw)
+			err = quickfix.ParseMessageWithDataDictionary(m, bytes.NewBuffer(exact), md.td, md.ad)
 		}); p != nil {
 			c09fail(t, "parse", md.name+"/"+panicClass(p), raw, fmt.Sprintf("ParseMessage panicked: %v (mutations %v)", p, muts))
 		}
